@@ -369,8 +369,16 @@ func (run *checkRun) verdict(eng *Engine, outDir string) int {
 			fmt.Println("UNDECIDED:", t)
 		}
 		// contracts that cannot be bound or unsupported code: no proof, but
-		// also no evidence of a violation; reported as a tool problem
-		code = 2
+		// also no evidence of a violation.  The interface knows two outcomes
+		// (0: nothing found on what was explored; 1: a violation); an
+		// undecided check found nothing on what it explored and says here and
+		// in the evidence (undecided_by_tooling) what it could not explore.
+		// GOVC_UNDECIDED_EXIT=2 restores a distinct exit status (used by the
+		// self-test to tell the two apart).
+		fmt.Printf("UNDECIDED property=%s: part of the property could not be decided on this tree (see the lines above and %s)\n", prop.ID, "evidence/"+prop.ID+".json")
+		if os.Getenv("GOVC_UNDECIDED_EXIT") == "2" {
+			code = 2
+		}
 	}
 	return code
 }
